@@ -57,7 +57,7 @@ FLOORS = {
         "programs_with_int_or_bool_values": 1000, "jvp_agree": 4000, "grad_agree": 3000,
     },
 }
-TIMEOUT_S = {"quick": 1800, "thorough": 5400}  # watchdog only; see CASE_BUDGET_S
+TIMEOUT_S = {"quick": 2700, "thorough": 7200}  # watchdog only (idle 16 cores: ~1 min / ~11 min)
 CASE_BUDGET_S = 60
 
 ULPS = 64
@@ -67,7 +67,8 @@ PROFILES = ["scalar", "array", "array", "pytree", "pytree", "int"]
 # (custom_jvp functions called at top level, lax.top_k / lax.sort_key_val, cond with several outputs, singular
 # derivative at a symbolic-zero value).  They are generated at top level only, so that the bisection names them.
 INCLUDE_FAIL_PRONE_CLASSES = True
-EAGER_EVERY = 8  # every 8th program runs op by op (as at a prompt); the others under jax.jit, oracle and genjax alike
+EAGER_EVERY = 20  # every 20th program runs op by op (as at a prompt, ~10x the cost: one XLA compile per primitive);
+# the others under jax.jit, oracle and genjax alike
 
 
 def plan(tier, seed):
@@ -419,10 +420,9 @@ def run_case(case, ctx):
         if j == 0:
             # the program must be traceable at all (a tracing error inside genjax would otherwise be ours), and the
             # generator's own shape / dtype inference must match what JAX computes
-            jx = jax.make_jaxpr(run.f)(*args)
+            jx, (_, (rec, _)) = jax.make_jaxpr(run.with_nodes, return_shape=True)(*args)
             for eqn in jx.jaxpr.eqns:
                 ctx.distinct("primitive", eqn.primitive.name)
-            _, (rec, _) = jax.eval_shape(run.with_nodes, *args)
             for nd, v in zip(spec["body"]["nodes"], rec):
                 dt = {"f": "f", "i": "i", "u": "i", "b": "b"}[np.dtype(v.dtype).kind]
                 if dt != nd["ty"][0] or list(v.shape) != list(nd["ty"][1]):
